@@ -73,6 +73,37 @@ CHECKS = {
         "technique": "Hypothesis generation, totality + determinism oracle with a counted step budget",
         "ref": "DESIGN.md 4 C07",
     },
+    "C10": {
+        "level": "Generated-text search: random derivations from pest's meta-grammar, random ASTs printed in a "
+        "randomised free layout, the 15 bundled grammars and single-token mutations of all of them; the "
+        "transcribed meta-grammar (run by the reference evaluator) decides validity and denotes the expected "
+        "structure; python-pest must accept exactly the valid texts and build that structure.",
+        "note": "Trusted: the hand transcription of tests/grammars/meta.pest (self-checked as a fix-point in every "
+        "run, exit 2 otherwise) and the normalisation applied to both sides.",
+        "technique": "grammar-based generation + token mutation, differential oracle against pest's own "
+        "meta-grammar evaluated by a reference PEG interpreter",
+        "ref": "DESIGN.md 4 C10",
+    },
+    "C11": {
+        "level": "Generated-text search for totality: every prefix of bundled and generated grammars, mutations, "
+        "token soups, Hypothesis text; outcome must be a Parser or a PestGrammarError whose message renders and "
+        "points inside the text; with and without the optimizer; step budget decides termination.",
+        "note": "Trusted: nothing beyond the outcome classification; RecursionError from pathological nesting is "
+        "not generated.",
+        "technique": "exhaustive truncation + mutation + Hypothesis text generation, totality oracle",
+        "ref": "DESIGN.md 4 C11",
+    },
+    "C12": {
+        "level": "Exhaustive membership sweeps over all 1,114,112 code points for the 12 explicit built-in character "
+        "rules in four modes; boundary-focused (quick) / exhaustive (thorough) sweeps for a Hypothesis-generated "
+        "family of ranges, literals and merged choices and for Unicode property rules (cross-mode equality); "
+        "ASCII case-insensitive literals; every escape form.",
+        "note": "Trusted: explicit set definitions taken from the pest book; Unicode property rules are only "
+        "compared across modes.",
+        "technique": "exhaustive code-point enumeration + Hypothesis-generated character classes against explicit "
+        "set oracles and cross-mode differential",
+        "ref": "DESIGN.md 4 C12",
+    },
     "C13": {
         "level": "Predicates on every PestParsingError raised for generated grammars and reporting.pest in four "
         "modes, on multi-line / non-ASCII texts and non-zero start positions: position range, rule names, "
